@@ -614,12 +614,13 @@ class Exec:
                 old_times = None
                 if op.get('keep_mtime'):
                     try:
-                        st_ = K._real['os.stat'](p)
+                        st_ = os.stat(p)        # (time stamps in the simulated domain)
                         old_times = (st_.st_atime, st_.st_mtime)
                     except OSError:
                         pass
                 with K._real['open'](p, 'w', encoding='utf-8') as f:
                     f.write(txt)
+                k.touch_path(p)
                 if old_times is not None:
                     # the new content arrives with an OLD modification time (mv of a staged file, cp -p, rsync -t, tar x)
                     os.utime(p, (old_times[0], old_times[1] - 3600.0))
